@@ -12,6 +12,8 @@
    {"k":"ser", "v":tree, "ind":n, "out":[code points], "re":b}
         out = v.serialize() (ind = -1) or v.serialize_pretty(ind); re = Value::parse(out) == v.
         Expected:  IsJson(out), Denote(out) = v, re.
+   {"k":"idx", "in":[code points], "op":s, "key":[cp..], "n":i, "some":b, "panic":b, "res":tree, "after":tree}
+        extension beyond C13: an indexing operation on Value::parse(in), checked against Json8259 Part 5.
 
    tree: the nodes of the value in preorder (flat, because the JSON reader refuses nesting > 255):
          {"t":"null"} {"t":"bool","b":b} {"t":"str","s":[cp..]} {"t":"arr","n":size}
@@ -82,6 +84,14 @@ HasBigNum(d) == IF d.t = "num" THEN MayOverflow(NormNum(d.n))
                 ELSE IF d.t = "arr" \/ d.t = "obj" THEN \E k \in 1..Len(d.a) : HasBigNum(d.a[k])
                 ELSE FALSE
 
+\* RFC 8259 section 4: when the names within an object are not unique the behaviour of the receiver is
+\* unpredictable (all pairs, the last pair, ...).  Accept / reject is still decided by the grammar, but the
+\* VALUE of such a text is not compared (the code as it stands keeps every pair, in order).
+RECURSIVE HasDupKeys(_)
+HasDupKeys(d) == IF d.t = "obj" THEN (\E i, j \in 1..Len(d.k) : i < j /\ d.k[i] = d.k[j]) \/ (\E k \in 1..Len(d.a) : HasDupKeys(d.a[k]))
+                 ELSE IF d.t = "arr" THEN \E k \in 1..Len(d.a) : HasDupKeys(d.a[k])
+                 ELSE FALSE
+
 AcceptOk(p, got, d, either) == IF either THEN got => (p.ok /\ p.d <= d)
                                ELSE got <=> (p.ok /\ p.d <= d)
 
@@ -93,16 +103,33 @@ WhyDoc(r) ==
   IN  IF ~AcceptOk(p, r.ok, r.L, either) THEN "parse: accept/reject"
       ELSE IF \E k \in 1..Len(r.pm) : ~AcceptOk(p, r.pm[k].ok, r.pm[k].d, either) THEN "parse_max_depth: accept/reject"
       ELSE IF ~r.same THEN "parse and parse_max_depth returned different values"
-      ELSE IF anyok /\ ~p.lone /\ ~Same(p.v, r.v) THEN "value differs from the denotation"
+      ELSE IF anyok /\ ~p.lone /\ ~HasDupKeys(p.v) /\ ~Same(p.v, r.v) THEN "value differs from the denotation"
       ELSE IF r.nx = "bad" THEN "number differs from f64::from_str of the literal"
       ELSE ""
 WhySer(r) ==
   LET p == Parse(r.out) IN
   IF ~p.ok THEN "serialiser output is not JSON"
+  ELSE IF HasDupKeys(p.v) THEN ""                                  \* duplicate names: value not compared (see above)
   ELSE IF p.lone \/ ~Same(p.v, r.v) THEN "serialiser output denotes a different value"
   ELSE IF ~r.re THEN "parse(serialised) differs from the value"
   ELSE ""
-Why(r) == IF r.k = "doc" THEN WhyDoc(r) ELSE WhySer(r)
+\* extension (Json8259 Part 5): indexing on a parsed document
+OptSame(e, some, res) == e.some = some /\ (e.some => Same(e.v, res))
+WhyIdx(r) ==
+  LET p == Parse(r.in)
+      v == p.v
+  IN  IF ~p.ok THEN "indexed document is not JSON"
+      ELSE IF r.op = "get_key" THEN (IF OptSame(GetKey(v, r.key), r.some, r.res) /\ Same(v, r.after) THEN "" ELSE "get(key)")
+      ELSE IF r.op = "get_idx" THEN (IF OptSame(GetIdx(v, r.n), r.some, r.res) /\ Same(v, r.after) THEN "" ELSE "get(index)")
+      ELSE IF r.op = "index_key" THEN (IF Same(IndexKey(v, r.key), r.res) /\ Same(v, r.after) THEN "" ELSE "value[key]")
+      ELSE IF r.op = "index_idx" THEN (IF Same(IndexIdx(v, r.n), r.res) /\ Same(v, r.after) THEN "" ELSE "value[index]")
+      ELSE IF r.op = "get_mut_key" THEN
+           LET m == GetMutKey(v, r.key) IN IF OptSame(m.ref, r.some, r.res) /\ Same(m.after, r.after) THEN "" ELSE "get_mut(key)"
+      ELSE IF r.op = "get_mut_idx" THEN
+           LET m == GetMutIdx(v, r.n) IN IF OptSame(m.ref, r.some, r.res) /\ Same(m.after, r.after) THEN "" ELSE "get_mut(index)"
+      ELSE LET m == AssignKey(v, r.key, VBool(TRUE)) IN
+           IF m.panic = r.panic /\ Same(m.after, r.after) THEN "" ELSE "value[key] = true"
+Why(r) == IF r.k = "doc" THEN WhyDoc(r) ELSE IF r.k = "ser" THEN WhySer(r) ELSE WhyIdx(r)
 
 \* Attribution of a mismatch: is the doc record exactly what Part 2 of Json8259 (the model of parser.rs)
 \* predicts under the deviations of this configuration's Dev?  (Trace_Json8259_dev_*.cfg)
